@@ -98,7 +98,10 @@ F_ACTIONS = ["", "{ }", "{ g = g + 1; }", "{ return; }", "{ return 1; }", "{ bre
              "{ puts(NP, \" \", PL, \" \", WL, \" \", TSS, \" \", TSU); }", "{ exit(0); }", "{ self_name(1); }", "{ let big = [1, 2, 3] * 2; }", "{ undefined_fn(); }",
              # unbounded recursion started from a filter, through functions with no parameters and no locals: the frame limit, not the
              # operand stack, is what stops it (a filter frame has no callee slot)
-             "{ inf(); }", "{ pa(); }", "{ inf3(); }", "{ let q = 1; inf(); }"]
+             "{ inf(); }", "{ pa(); }", "{ inf3(); }", "{ let q = 1; inf(); }",
+             # the layers of the current packet, by depth and by name
+             "{ puts($0, \" \", $1, \" \", $2, \" \", $3, \" \", $4, \" \", $5); }", "{ let t = $3; puts(t); let u = $2; puts(u); }",
+             "{ let e = ($1); if e { puts(e.type); } let i = $2; if i { puts(i); } }", "{ puts($11); }", "{ let p = $0; puts(p.caplen, \" \", p.wirelen); g = g + len(p.payload); }"]
 F_PLACES = [
     "@ {pat} {act}\n",
     "fn host(x) {{\n  let loc = 5;\n  @ {pat} {act}\n  return x;\n}}\nhost(1);\n",
@@ -223,6 +226,21 @@ def cases(ctx):
         hdr, pkts, data = c20.stream(rng)
         if not pkts:
             hdr, pkts, data = c20.stream(rng)
+        if k % 2 == 1:
+            # real frames, well-formed and malformed (every header-length / data-offset value, truncations): the layer accessors of
+            # the filter actions parse them
+            import struct
+            from props import pktlib as PL
+            shapes = PL.shapes()
+            names = list(shapes)
+            frames = []
+            for _ in range(rng.randint(1, 6)):
+                fr = PL.build(shapes[rng.choice(names)], rng)
+                if rng.random() < 0.3:
+                    fr = fr[: rng.randint(0, len(fr))]
+                frames.append(fr)
+            data = struct.pack("<IHHiIII", 0xA1B2C3D4, 2, 4, 0, 0, 65535, 1) + b"".join(struct.pack("<IIII", 1 + j, 0, len(fr), len(fr)) + fr for j, fr in enumerate(frames))
+            pkts = frames
         prof = "dev" if k % 3 else "release"
         skip = rng.random() < 0.5
         out.append(Case("filt " + src.encode("utf-8").hex(), ("filter-e2e", prof), extra={"src": src, "data": data.hex(), "skip": skip, "prof": prof, "packets": len(pkts)}))
